@@ -19,7 +19,7 @@ from ..vloop import HarnessError
 from ..world import ConnWorld, mk, msg_id
 
 KINDS = ("PRESP", "ST", "PR", "UK")
-COUNTS = {"PRESP": True, "ST": True, "PR": True, "UK": False}  # does the arrival count as a sign of life?
+COUNTS = {"PRESP": True, "ST": True, "PR": True, "UK": False, "STP": True}  # does the arrival count as a sign of life?
 GRID = 4
 PERIODS = 12
 RATIO = 4.5
@@ -32,6 +32,13 @@ def frame(w: ConnWorld, kind: str) -> bytes:
         return w.dframe(mk("SensorStateResponse", key=3, state=0.5))
     if kind == "PR":
         return w.dframe(mk("PingRequest"))
+    if kind == "STP":
+        # a read that holds a complete state message followed by the header and the first part of a long message; the rest of
+        # the long message comes with the next such read.  The complete message counts for the interval in which it arrived.
+        tail = getattr(w, "_c10_tail", b"")
+        big = w.dframe(mk("SubscribeLogsResponse", level=3, message=b"l" * 600))
+        w._c10_tail = big[40:]  # type: ignore[attr-defined]
+        return tail + w.dframe(mk("SensorStateResponse", key=3, state=0.5)) + big[:40]
     return wire.encode_frame(9999, b"zz")
 
 
@@ -313,6 +320,10 @@ def run(tier: str, seed: int) -> Result:
     for kk in (1.0, 2.0):
         jobs += schedules(f"reqdue:{kk}", 1 if q else 2, KINDS, ("PRESP", "UK"))
     jobs += schedules("noname:2.0", 1 if q else 2, KINDS, ("PRESP", "UK"))
+    jobs += schedules(2.0, 2, ("STP",), ("STP",))  # reads that end inside a long message, in front of it a complete one
+    for period in (2, 3, 7, 8):
+        arr = tuple((i * period + 1, "STP", "io") for i in range(0, (PERIODS * GRID) // period))
+        jobs.append((2.0, arr))
     jobs += schedules("stopraises:2.0", 1 if q else 2, KINDS, ("PRESP", "UK"))
     # keepalive values whose 4.5*K has many decimals, and very small ones: nothing is rounded
     # (arrivals strictly inside the grid cells: with non-dyadic K a "tie" would be decided by floating-point noise)
